@@ -136,6 +136,33 @@ fn grid_item(wmax: u64, i: u64, acc: &mut Acc) {
     }
 }
 
+/// Standard mode, custom picture formats (PLUSPTYPE + CPFMT): every width x height that is a
+/// multiple of 4 in the box; I picture (format stated) then P picture (format not restated).
+fn std_custom_item(n: u64, i: u64, acc: &mut Acc) {
+    let w = ((i % n) + 1) as usize * 4;
+    let h = ((i / n) + 1) as usize * 4;
+    let size = Size::StdCustom(w as u16, h as u16);
+    let mut ipic = cheap_intra(Mode::Standard, 0, size, ((w + h) % 31 + 1) as u8, w + h);
+    ipic.hdr.plus = PlusForm::Full;
+    let mut ppic = cheap_inter(&ipic.hdr, ((w * 7 + h) % 31 + 1) as u8, w + 3 * h);
+    ppic.hdr.plus = if (w / 4 + h / 4) % 3 == 0 { PlusForm::Full } else { PlusForm::Brief };
+    let mut st_plain = H263State::new(options(Mode::Standard, false));
+    for (name, pic) in [("I", &ipic), ("P", &ppic)] {
+        let r = match decode_bytes(&mut st_plain, &encode_pic(pic)) {
+            Outcome::Ok => postprocess(&st_plain, w, h),
+            o => Err(format!("valid standard-mode {} picture of {}x{} (custom format, header form {:?}) not decoded: {}", name, w, h, pic.hdr.plus, o.short())),
+        };
+        if let Err(m) = r {
+            acc.fail(json!({"kind":"params","w":w,"h":h,"std_custom":true}), m);
+            return;
+        }
+        acc.count(w % 16 != 0 || h % 16 != 0 || w < 10 || h < 10);
+    }
+    if w == 20 && h == 12 {
+        acc.sample(|| json!({"standard_custom_format": [w, h], "pictures": ["I (UFEP=001 + CPFMT)", "P (UFEP=000 or 001)"]}));
+    }
+}
+
 fn fixed_formats_suite() -> SuiteReport {
     simple_suite("fixed_formats", true, |acc| {
         let cases: Vec<(Mode, Size)> = vec![
@@ -211,6 +238,8 @@ pub fn run(ctx: &Ctx) -> i32 {
     let mut reports = vec![super::regression_suite(ctx)];
     let (gw, gh) = ctx.tier.pick((64u64, 64u64), (200u64, 200u64));
     reports.push(exhaustive_suite(ctx, "size_grid", gw * gh, &move |i, acc| grid_item(gw, i, acc)));
+    let n = ctx.tier.pick(24u64, 72u64);
+    reports.push(exhaustive_suite(ctx, "standard_custom_size_grid", n * n, &move |i, acc| std_custom_item(n, i, acc)));
     reports.push(fixed_formats_suite());
     let cfg = cfg_for(ctx.tier);
     let cases = ctx.tier.pick(30_000u64, 300_000u64);
@@ -234,6 +263,16 @@ pub fn replay(suite: &str, case: &Value) -> Option<Verdict> {
         "random_pictures" => {
             let tier = if case["tier"].as_str() == Some("thorough") { Tier::Thorough } else { Tier::Quick };
             Some(random_case(&mut Gen::new(&super::tape_of(case)?), &cfg_for(tier)))
+        }
+        "standard_custom_size_grid" | "size_grid" if case["std_custom"] == true => {
+            let w = case["w"].as_u64()? / 4;
+            let h = case["h"].as_u64()? / 4;
+            let mut acc = Acc::default();
+            std_custom_item(1 << 20, (h - 1) * (1 << 20) + (w - 1), &mut acc);
+            Some(match acc.failure {
+                Some((_, _, m, _)) => Verdict::fail(m),
+                None => Verdict::pass(true, 0),
+            })
         }
         "size_grid" => {
             let w = case["w"].as_u64()?;
